@@ -1111,7 +1111,8 @@ def _rnd_store(rng):
             op = rng.randint(0, 3)
             if op == 0:
                 sh = store.create(nm)
-                if rng.random() < 0.6:            # data fields named like levels: a lookup below the share hits them
+                if rng.random() < 0.6 and isinstance(sh, storing.Share):
+                    # data fields named like levels: a lookup below the share hits them
                     sh.change([(f, rng.choice([1, "txt", {"a": 2}])) for f in rng.sample(["a", "b", "value"], 2)])
             elif op == 1:
                 store.createNode(nm)
@@ -1119,8 +1120,8 @@ def _rnd_store(rng):
                 store.add(storing.Share(name=nm))
             else:
                 store.addNode(nm)
-        except (ValueError, TypeError):       # TypeError: a lookup below a share (defect of the unrepaired lookups)
-            pass
+        except Exception:       # rejected operation (ValueError); TypeError: lookup below a share on the unrepaired
+            pass                # tree; anything else under a seeded mutant - the builder only produces states
     return store
 
 
